@@ -570,6 +570,9 @@ func MainWith(id string, scenarios []*Scenario, assumptions []string, extra Extr
 	var rules []string
 	perScn := map[string]any{}
 	for _, s := range scenarios {
+		if only := os.Getenv("VEXPLORE_ONLY"); only != "" && !strings.Contains(s.Name, only) {
+			continue // debugging aid: explore the named scenario(s) only
+		}
 		bound := s.QuickBound
 		budget := s.QuickBudget
 		if r.Thorough() {
@@ -577,7 +580,12 @@ func MainWith(id string, scenarios []*Scenario, assumptions []string, extra Extr
 			budget = s.ThoroughBudget
 		}
 		if budget == 0 {
-			budget = 10 * time.Minute
+			// default wall-clock budget per scenario; when it is exceeded the run reports the last completed
+			// bound with exhaustive=false (never a failure)
+			budget = 90 * time.Second
+			if r.Thorough() {
+				budget = 4 * time.Minute
+			}
 		}
 		deadline := time.Now().Add(budget)
 		// determinism: the default schedule run twice must give identical observations and points
